@@ -9,4 +9,4 @@ RULE = ("per item and variant: FillRandom with N fixed seeds in a journaled chil
 
 def run(ctx):
     codec.simple_check(ctx, "c18", RULE, [("types", "types", 150), ("fills", "fills", 20000), ("result fills", "result_fills", 500)], 120, 1500,
-                       count_keys=("fills", "result_fills"), fill_death_is_violation=True)
+                       count_keys=("fills", "result_fills"), fill_death_is_violation=True, random_quick=3, random_thorough=30)
